@@ -243,7 +243,7 @@ def checks(tier):
     for layer, initial in (("serial", ["A"]), ("shared-neuron", ["A", "B"]), ("shared-neuron", ["A"])):
         prefixes = [[], ["step"], ["step", "step"]] + ([["step", "del A"], ["t.eval", "step"]] if "B" in initial or th else [])
         for pf in prefixes:
-            free = (5 - len(pf)) if th else (3 if pf else 4) if layer == "serial" else (3 if pf else 3)
+            free = (5 - len(pf)) if th else ((3 if layer == "serial" else 2) if pf else 3)
             single.append(dict(layer=layer, initial=initial, prefix=pf, free=free))
     two = [dict(first=a, second=b, free=(5 if th else (4 if a == "mstdpet" and b == "stdp" else 3)), first_op=k) for a, b in (("stdp", "stdp"), ("stdp", "stdp-other"), ("mstdpet", "stdp"), ("mstdpet", "mstdpet"), ("stdp", "mstdpet"))
            for k in range(7)]
